@@ -456,6 +456,46 @@ def flatten(tree):
     return done
 
 
+PURE_VALUE_PARSERS = ('Category.parse',)     # text -> frozen value, no state: memoising them changes nothing observable
+
+
+def unalias_memoised(tree):
+    """NAME = lru_cache(..)(Category.parse) / functools.cache(Category.parse) at module level: NAME(text) reads as
+    Category.parse(text).  Only for the parsers listed above (their values are frozen dataclasses that depend on the text
+    alone, which C13 R13.1 judges); a memo around anything else stays visible as what it is."""
+    done = []
+    for st in list(tree.body):
+        if not (isinstance(st, ast.Assign) and len(st.targets) == 1 and isinstance(st.targets[0], ast.Name) and isinstance(st.value, ast.Call)):
+            continue
+        v = st.value
+        f = ast.unparse(v.func)
+        target = None
+        if f in ('lru_cache', 'functools.lru_cache', 'cache', 'functools.cache') and len(v.args) == 1 and not v.keywords:
+            target = v.args[0]
+        elif isinstance(v.func, ast.Call) and ast.unparse(v.func.func) in ('lru_cache', 'functools.lru_cache') and len(v.args) == 1 and not v.keywords:
+            target = v.args[0]
+        if target is None or ast.unparse(target) not in PURE_VALUE_PARSERS:
+            continue
+        name = st.targets[0].id
+        if any(isinstance(n, ast.Name) and n.id == name and isinstance(n.ctx, ast.Store) and n is not st.targets[0] for n in ast.walk(tree)):
+            continue
+
+        class _Sub(ast.NodeTransformer):
+            def visit_Name(self_, n):
+                if n.id == name and isinstance(n.ctx, ast.Load):
+                    return ast.copy_location(_clone(target), n)
+                return n
+        for other in tree.body:
+            if other is not st:
+                _Sub().visit(other)
+        tree.body.remove(st)
+        done.append(name)
+    if done:
+        ast.fix_missing_locations(tree)
+        _link(tree)
+    return done
+
+
 def expand_element_attributes(tree):
     """lxml: attributes handed to the element factory are attributes set right after creation, in keyword order --
         x = etree.SubElement(p, 'tag', a=1, b=2)   reads   x = etree.SubElement(p, 'tag'); x.set('a', 1); x.set('b', 2)
